@@ -104,7 +104,6 @@ var fileTasksYAML = map[string]string{
     summary: a summary
     label: 'lbl'
     silent: true
-    watch: true
     interactive: false
     method: none
     prefix: pfx
@@ -128,6 +127,10 @@ var fileTasksYAML = map[string]string{
   default:
     cmds:
       - echo "O|A.default|$PWD|{{.IV}}"
+  t4:
+    watch: true
+    cmds:
+      - echo "O|A.t4|$PWD|{{.IV}}"
 `,
 	"B": `  t1:
     cmds:
@@ -360,12 +363,13 @@ func evalMerge(c mCase, loads int) (ms []mMismatch, unstable *mMismatch) {
 		origin := fmt.Sprintf("O|%s.%s|", w.File, w.Task)
 		body := ""
 		var deps, calls []string
+		// a reference with a leading ":" resolves to the root task of that name
 		for _, d := range t.Deps {
-			deps = append(deps, d.Task)
+			deps = append(deps, strings.TrimPrefix(d.Task, ":"))
 		}
 		for _, cm := range t.Cmds {
 			if cm.Task != "" {
-				calls = append(calls, cm.Task)
+				calls = append(calls, strings.TrimPrefix(cm.Task, ":"))
 			} else {
 				body += cm.Cmd
 			}
@@ -413,8 +417,8 @@ func evalMerge(c mCase, loads int) (ms []mMismatch, unstable *mMismatch) {
 				dangling = true // refers to a task the tree excludes: nothing is specified about running it
 			}
 		}
-		if dangling {
-			continue
+		if dangling || got[name].Watch {
+			continue // a watch: true task would start watching; it is only compared structurally
 		}
 		for _, call := range names {
 			out.Reset()
@@ -531,7 +535,7 @@ func CheckMerge(prop, tier string) int {
 	}
 	loads := 1
 	if prop == "C09" {
-		loads = 12
+		loads = 8
 		if tier == "thorough" {
 			loads = 60
 		}
